@@ -45,7 +45,7 @@ PROPS = {
              "distinct = distinct decoded choice sequences (64-bit hash), united over shards.",
         assumptions=["long double products/residuals act as reference for double computations",
                      "1 OpenMP thread: library results are deterministic, so bitwise comparison of two constructions is meaningful",
-                     "matrices without stored entries are excluded from the col_data()/val_data() pointer check of the tuple adapter (known finding F-tuple-data-empty)"],
+                     "for matrices without stored entries col_data()/val_data() of the tuple adapter are only required to be callable without undefined behaviour (no pointer identity)"],
         min_nontrivial=500,
     ),
 }
